@@ -1,7 +1,7 @@
 (** Proofs of the C12 o C01/C03 link. *)
 From Coq Require Import String.
 From WG Require Import Base.Prelude Codes.Codes Codes.Statements BV.Model BV.RefSel BV.Bits
-  BV.BitsFacts BV.Access BV.AccessStatements BV.AccessFacts BV.SelStatements BV.GreedyFacts
+  BV.BitsFacts BV.Access BV.AccessStatements BV.AccessFacts BV.SelStatements BV.GreedyFacts BV.OffsetsStatements BV.OffsetsFacts
   Flags.Props Flags.Statements Flags.PropsFacts Par.Splice Par.SpliceFacts
   Split.Model Split.Statements Split.SplitFacts Split.RangesFacts
   Links.LoadLinkStatements.
@@ -96,6 +96,22 @@ Proof.
   exact (link_load_par le st f text cuts g sels arrival rest Hw Hst Hg Hlegal Hsels Hperm).
 Qed.
 
+Theorem link_load_files : S_link_load_files.
+Proof.
+  intros le st f text g sel rest orest fuel x l Hw Hst Hg Hsel Hx Hf cs p recs obits.
+  assert (Hlen : length (node_bitlens le cs recs) = length g).
+  { unfold node_bitlens, recs, encode_graph. rewrite map_length, encode_nodes_length. reflexivity. }
+  assert (Hoffs : load_offsets (nlen g) obits = Some (enc_offs le cs p g sel)).
+  { unfold load_offsets, obits, nlen. rewrite Nat2N.id, <- Hlen.
+    rewrite (offsets_file (node_bitlens le cs recs) orest). reflexivity. }
+  split; [exact Hoffs|]. split.
+  - unfold load_ra_files. rewrite (parse_written le st f text g Hw Hst), Hoffs.
+    apply ra_eq_seq; try assumption. eapply link_written_codes_ok; eassumption.
+  - intros Hb. destruct (props_roundtrip le st f text Hw) as [_ Hl]. rewrite Hl, Hb.
+    f_equal. symmetry. exact (proj2 (offsets_shape le cs recs)).
+Qed.
+
+Print Assumptions link_load_files.
 Print Assumptions link_dcf_par_load.
 Print Assumptions link_load_par.
 Print Assumptions link_written_codes_ok.
